@@ -12,7 +12,8 @@ class ENotifer(object):
         super().__init__()
 
     def notify(self, notification):
-        notification.notifier = notification.notifier or self
+        if notification.notifier is None:
+            notification.notifier = self
         resource = self.eResource
         resource_listeners = []
         resource_eternals = []
@@ -52,7 +53,7 @@ class Notification(object):
 
 class EObserver(object):
     def __init__(self, notifier=None, notifyChanged=None):
-        if notifier:
+        if notifier is not None:
             notifier.listeners.append(self)
         if notifyChanged:
             self.notifyChanged = notifyChanged
